@@ -132,8 +132,10 @@ def cases(tier, seed):
         yield {"gen": gen, "mode": "api", "pattern": [0.0] * N}
         # hours of silence on a console that keeps accepting connections: the 30th reset comes
         # like the first
-        yield {"gen": gen, "mode": "api", "pattern": [None] * 34}
-        yield {"gen": gen, "mode": "api", "pattern": [None] * 25 + [0.0, 0.0] + [None] * 25}
+        # (the first answer one second late: deadlines at 331 + 330 k never coincide with a
+        # tick at 300 m, so nothing is cut short at a tie)
+        yield {"gen": gen, "mode": "api", "pattern": [1.0] + [None] * 34}
+        yield {"gen": gen, "mode": "api", "pattern": [1.0] + [None] * 25 + [7.0, 0.5] + [None] * 25}
     kmax = 4 if tier == "quick" else 6
     for k in range(1, kmax + 1):
         for pat in itertools.product([0.0, 45.0, None], repeat=k):
